@@ -176,7 +176,7 @@ pub trait Engine {
         None
     }
     /// like known_finding for a worker crash/hang on case k
-    fn known_finding_crash(&self, _k: u64, _seed: u64, _tier: Tier) -> Option<&'static str> {
+    fn known_finding_crash(&self, _k: u64, _seed: u64, _tier: Tier, _kind: &str) -> Option<&'static str> {
         None
     }
 }
@@ -293,7 +293,7 @@ pub fn worker_main(engine: &dyn Engine, tier: Tier, vseed: u64, start: u64, step
         }
         arm_cpu_timer(0);
         since_flush += 1;
-        if since_flush >= 256 {
+        if since_flush >= 64 {
             let mut o = out.lock();
             let _ = writeln!(o, "P {}", stats.to_json());
             let _ = o.flush();
@@ -642,7 +642,7 @@ pub fn supervise(engine: &dyn Engine, tier: Tier, vseed: u64) -> RunOutcome {
     }
     let mut aborted_nonviolation = 0u64;
     for (k, kind) in &crashes {
-        if let Some(id) = engine.known_finding_crash(*k, case_seed(vseed, prop, *k), tier) {
+        if let Some(id) = engine.known_finding_crash(*k, case_seed(vseed, prop, *k), tier, kind) {
             if known.contains_key(id) {
                 *known_hit.entry(id.to_string()).or_insert(0) += 1;
                 continue;
